@@ -122,10 +122,15 @@ Proof.
   all: noret_leaf.
 Qed.
 
-Lemma send_step d s : closed s = false ->
+Lemma send_step d s : closed s = false -> in_term s = false ->
   trace (step s (OSend d)) = trace s ++ [ERet 1 (PStrNum (next_id s))]
   /\ tx_map (step s (OSend d)) = dict_set (next_id s) 0 (tx_map s).
-Proof. intros Hc. st_unfold. rewrite Hc. p_split. split; reflexivity. Qed.
+Proof. intros Hc Ht. st_unfold. rewrite Hc, Ht. p_split. split; reflexivity. Qed.
+
+(** Once terminating, send_bundle_data is refused and changes nothing. *)
+Lemma send_refused d s : closed s = false -> in_term s = true ->
+  step s (OSend d) = emit (EExc EX_RUNTIME) s.
+Proof. intros Hc Ht. unfold step. rewrite Hc, Ht. reflexivity. Qed.
 
 (** Every transfer id returned by send_bundle_data is still in the transmit
     map, or a SigSendFinished signal was emitted for it. *)
@@ -151,7 +156,11 @@ Proof.
     right. eapply fin_mono; [exact Hmono|exact H1]. }
   destruct o; try discriminate Ho;
     try (apply Hold; revert Hin; apply noret_step_o; [reflexivity|discriminate|reflexivity]).
-  destruct (send_step data s Hc) as [Et Em]. rewrite Et in Hin. apply in_app_iff in Hin.
+  destruct (in_term s) eqn:Ht.
+  { rewrite (send_refused data s Hc Ht) in Hin |- *. unfold emit in *. ep_cbn_in Hin. ep_cbn.
+    apply in_app_iff in Hin. destruct Hin as [Hin|[Hin|[]]]; [|discriminate Hin].
+    destruct (H id Hin) as [H1|[a H1]]; [left; exact H1|right]. exists a. apply in_app_iff. left. exact H1. }
+  destruct (send_step data s Hc Ht) as [Et Em]. rewrite Et in Hin. apply in_app_iff in Hin.
   destruct Hin as [Hin|[Hin|[]]]; [apply Hold, Hin|]. inversion Hin. subst id.
   left. rewrite Em. apply keys_dict_set_same.
 Qed.
